@@ -108,6 +108,20 @@ def check(ix, rep):
     rep.floor('handlers summarised and compared with the reference', decided, 30)
     nw, _w = windowrule.check_offline(ix, rep, mon)
     rep.floor('bounded operators whose window was derived and compared', nw, 6)
+    # 2b. the bounds the windows are built from: conversion of [begin, end] to sample counts (shared with C08)
+    from sa.rules import units
+    units.check_transformer(ix, rep, 'rtamt.semantics.discrete_time_interpreter', 'DiscreteTimeInterpreter', 'discrete')
+    # 2c. a robustness value is a number, never a flag
+    from sa.rules import truthy
+    hs = []
+    dd = D.dispatch_of(ix, mon.cls)
+    for nc in D.node_classes(ix):
+        meth, _ = dd.method_for(nc, ix)
+        cat, info, hf = D.classify(ix, mon.cls, meth) if meth else ('missing', None, None)
+        if cat == 'compute' and hf not in hs:
+            hs.append(hf)
+    nt = truthy.check_functions(ix, rep, hs, 'discrete-offline')
+    rep.floor('handlers and helpers checked for truth-value use of robustness', nt, 38)
     # 3. compositionality side conditions
     n = pure.pure_handlers(ix, rep, mon)
     rep.floor('handlers checked for purity', n, 38)
